@@ -18,7 +18,8 @@ RULE = (
     "odd windows, cross-checking without filling, steps in any legal order), scalar intervals within [-4,4], crop "
     "rectangles with arbitrary (odd and even) offsets; one case in three is 106-130 px wide with a noisy disparity map "
     "(a seeded fraction of right pixels replaced), a median filter and a crop whose interior holds the columns where "
-    "the whole image changes 100-pixel processing block. Non-trivial (crop) = >= 50 cone-interior pixels compared, >= 1 "
+    "the whole image changes 100-pixel processing block; half of the two-plane scenes get a crop inside ONE plane (with a "
+    "few outliers and a validation step), so that the crop does not hold every disparity of the whole image. Non-trivial (crop) = >= 50 cone-interior pixels compared, >= 1 "
     "of them flagged and >= 1 with a fractional disparity; (flip) = >= 1 flagged and >= 1 valid pixel and the image is "
     "not vertically symmetric. distinct = distinct canonical payload."
 )
@@ -91,13 +92,29 @@ def crop_cases(draw):
         if not any(c.get("filter_method") == "median" for _, c in steps):
             i_d = [n for n, _ in steps].index("disparity")
             steps.insert(draw(st.integers(i_d + 1, len(steps))), ["filter.blk", {"filter_method": "median", "filter_size": draw(st.sampled_from([3, 5]))}])
+    # a two-plane scene: half of the crops lie inside ONE plane, so that the crop does not hold every disparity the whole
+    # image holds (a step using a statistic of the processed map would see another one); a few outliers give right pixels
+    # pointing back with a disparity the crop's own valid pixels do not reach
+    one_plane = (not straddle) and pair.get("mode") == "planes" and draw(st.booleans())
+    if one_plane:
+        pair["noise"] = {"seed": draw(st.integers(0, 10 ** 6)), "frac": draw(st.sampled_from([0.02, 0.05, 0.1]))}
+        disp = [max(-4, min(disp[0], pair["shift"], pair["shift2"], 0)), min(4, max(disp[1], pair["shift"], pair["shift2"]))]
+        if not any(n.split(".")[0] == "validation" for n, _ in steps):
+            steps.append(["validation", {"validation_method": "cross_checking_accurate"}])
     rr, cr = radii(steps, disp)
     H, W = pair["H"], pair["W"]
     hmin, wmin = min(H, 2 * rr + 4), min(W, 2 * cr + 6)
     h = draw(st.integers(hmin, H))
+    sp = pair.get("split", 0)
     if straddle and W >= 100 + cr + 6 and 100 - cr - 3 >= 1:
         c0 = draw(st.integers(1, 100 - cr - 3))
         w = draw(st.integers(min(W - c0, 100 + cr + 6 - c0), W - c0))
+    elif one_plane and sp >= wmin and (W - sp < wmin or draw(st.booleans())):
+        w = draw(st.integers(wmin, sp))
+        c0 = draw(st.integers(0, sp - w))
+    elif one_plane and W - sp >= wmin:
+        w = draw(st.integers(wmin, W - sp))
+        c0 = draw(st.integers(sp, W - w))
     else:
         w = draw(st.integers(wmin, W))
         c0 = draw(st.integers(0, W - w))
@@ -158,8 +175,10 @@ def crop_body(ctx: Ctx, p: dict) -> None:
         classes.append("bilateral")
     if c0 % 2:
         classes.append("odd-col-offset")
-    if p["pair"].get("noise"):
+    if p["pair"].get("noise") and p["pair"]["noise"]["frac"] > 0.12:
         classes.append("crop-straddles-100px-block")
+    elif p["pair"].get("noise"):
+        classes.append("crop-inside-one-plane")
     ctx.case(p, nontrivial=bool(n_cmp >= 50 and n_flag and n_frac), classes=classes)
 
 
